@@ -114,6 +114,7 @@ func c10(p *P) {
 	r.Rule("C10.R6", "Put: every acyclic write sequence is a prefix of cert [checkpoint] pointer", 1)
 
 	writers := p.dsWriters()
+	p.gCreateOnlyMarker("C10.R2")
 
 	// ---- R1 / R5 / R6: Put
 	if put := p.fn("C10.R1", "certstore.Store.Put"); put != nil {
